@@ -19,6 +19,9 @@ class KDConcatDataset(ConcatDataset):
             return getattr(super(), item)
         if item.startswith("getall_"):
             # all methods starting with getall_ have to concatenate the result of dataset.getall_... for all datasets
+            # (AttributeError if one of the datasets has no such getall_)
+            for dataset in self.datasets:
+                getattr(dataset, item)
             return partial(self._call_getall, item)
         # warning/exception here might make sense
         return getattr(self.datasets[0], item)
